@@ -1672,6 +1672,32 @@ impl Analyzable for Program {
             }
         }
 
+        // environment values, parties, policies, assets, types and aliases live in one
+        // scope keyed by their exact name, where a second definition would replace the first
+        // (and hide it from the checks above)
+        let mut top_names = std::collections::HashSet::new();
+
+        let env_names = self.env.iter().flat_map(|env| env.fields.iter().map(|f| &f.name));
+        let party_names = self.parties.iter().map(|x| &x.name.value);
+        let policy_names = self.policies.iter().map(|x| &x.name.value);
+        let asset_names = self.assets.iter().map(|x| &x.name.value);
+        let type_names = self.types.iter().map(|x| &x.name.value);
+        let alias_names = self.aliases.iter().map(|x| &x.name.value);
+
+        for name in env_names
+            .chain(party_names)
+            .chain(policy_names)
+            .chain(asset_names)
+            .chain(type_names)
+            .chain(alias_names)
+        {
+            if !top_names.insert(name.clone()) && !duplicates.errors.contains(&Error::DuplicateDefinition(name.clone())) {
+                duplicates
+                    .errors
+                    .push(Error::DuplicateDefinition(name.clone()));
+            }
+        }
+
         // the interface and the lowered IR of a transaction are both looked up by its name
         let mut tx_names = std::collections::HashSet::new();
 
